@@ -285,10 +285,13 @@ instance (s : Sig) : Decidable (WF s) :=
 structure HandlerWF (h : Handler) : Prop where
   sig : WF h.sig
   preboundGone : ∀ k ∈ h.prebound, ∀ p ∈ h.sig, p.name ≠ k
+  preboundDistinct : h.prebound.Nodup
 
 instance (h : Handler) : Decidable (HandlerWF h) :=
   if h1 : WF h.sig then
-    if h2 : ∀ k ∈ h.prebound, ∀ p ∈ h.sig, p.name ≠ k then isTrue ⟨h1, h2⟩
+    if h2 : ∀ k ∈ h.prebound, ∀ p ∈ h.sig, p.name ≠ k then
+      if h3 : h.prebound.Nodup then isTrue ⟨h1, h2, h3⟩
+      else isFalse (fun h => h3 h.preboundDistinct)
     else isFalse (fun h => h2 h.preboundGone)
   else isFalse (fun h => h1 h.sig)
 
